@@ -187,6 +187,7 @@ type Leaf struct {
 	ID       string `json:"id"`
 	Pos      string `json:"pos"` // Pos.Key()
 	Compared bool   `json:"compared"`
+	Keyless  bool   `json:"keyless,omitempty"` // a TLS context configured WITHOUT a private key (interleaved histories)
 	Key      string `json:"-"`
 	Name     string `json:"-"`
 	Cert     string `json:"-"`
@@ -197,6 +198,9 @@ type Leaf struct {
 type Registry struct {
 	Leaves []*Leaf
 	byID   map[string]*Leaf
+	// Keyless: the leaves created while it is set are TLS contexts without a
+	// private key (same POS-/CERT-/CA- markers, empty key).
+	Keyless bool
 }
 
 func NewRegistry() *Registry { return &Registry{byID: map[string]*Leaf{}} }
@@ -211,6 +215,9 @@ func (g *Registry) add(p Pos, tag, inst string) *Leaf {
 	}
 	l := &Leaf{ID: id, Pos: p.Key(), Compared: p.Compared(),
 		Key: "KEY-(" + id + ")", Name: "POS-(" + id + ")", Cert: "CERT-(" + id + ")", CA: "CA-(" + id + ")"}
+	if g.Keyless {
+		l.Keyless, l.Key = true, ""
+	}
 	g.Leaves = append(g.Leaves, l)
 	g.byID[id] = l
 	return l
@@ -224,6 +231,9 @@ func (l *Leaf) tlsConfig() v2.TLSConfig {
 }
 
 func (l *Leaf) tlsMap() map[string]interface{} {
+	if l.Keyless {
+		return map[string]interface{}{TagStatus: true, TagServerName: l.Name, TagCACert: l.CA, TagCertChain: l.Cert}
+	}
 	return map[string]interface{}{TagStatus: true, TagServerName: l.Name, TagCACert: l.CA, TagCertChain: l.Cert, TagPrivateKey: l.Key}
 }
 
